@@ -271,6 +271,8 @@ def run(ctx):
                "Ral: !record\n  fields:\n    num: MaybeNum\n\nPu: !protocol\n  sequence:\n    r: Ral\n    k: Rk\n"),
               ("generic-parameter-only-in-array-element-arguments", "R2<D>: !record\n  fields:\n    d: D\n\nRec<D>: !record\n  fields:\n    f: R2<D>[]\n    g: R2<D>[2]\n\n"
                "Pg: !protocol\n  sequence:\n    r: Rec<int32>\n    s: !stream\n      items: Rec<string>\n"),
+              ("generic-union-parameter-in-two-cases", "OneOrMany<T>: !union {one: T, many: T*}\n\nRg: !record\n  fields:\n    a: OneOrMany<int32>\n    b: !union {single: string, byName: string->string}\n\n"
+               "Gu<T>: !record\n  fields:\n    u: !union {lone: T, keyed: string->T}\n\nPo: !protocol\n  sequence:\n    r: Rg\n    g: Gu<float32>\n    s: !stream\n      items: OneOrMany<Rg>\n"),
               ("map-key-ok", "Pk: !protocol\n  sequence:\n    g: bool->bool\n    h: string->string*\n    i: uint64->float32\n    j: size->int8\n")]
     for i, (key, model) in enumerate(shapes):
         d = os.path.join(ctx.scratch, "shape%d" % i)
